@@ -21,7 +21,7 @@ impl VClone for Ty { #[verifier::external_body] fn vclone(&self) -> (r: Self) { 
 #[verifier::external_body]
 pub fn vec_take<T>(v: &mut Vec<T>) -> (r: Vec<T>) ensures r@ == old(v)@, final(v)@ == Seq::<T>::empty() { unimplemented!() }   // rules vec_retain, mem_take (std::mem::take on a Vec leaves Vec::default(), the empty vector)
 impl Expr { #[verifier::external_body] pub fn get_ty(&self) -> (r: Ty) { unimplemented!() } }
-impl Pat { #[verifier::external_body] pub fn get_ty(&self) -> (r: Ty) { unimplemented!() } }
+impl Pat { pub uninterp spec fn ty_of(&self) -> Ty; #[verifier::external_body] pub fn get_ty(&self) -> (r: Ty) ensures r == self.ty_of() { unimplemented!() } }
 
 // ---- move_variable_patterns: a column whose pattern is a variable binds that variable to the COLUMN's scrutinee variable ----
 pub open spec fn is_var_col(c: Column) -> bool { c.pat is PVar }
@@ -64,6 +64,7 @@ pub fn compile_expr(e: &Expr, genv: &GlobalTypeEnv, gensym: &Gensym, diagnostics
 // everything compile_rows does once neither base case applies (choice of the branch variable, splitting per constructor ...): not verified
 #[verifier::external_body]
 pub fn compile_rows_rest(genv: &GlobalTypeEnv, gensym: &Gensym, diagnostics: &mut Diagnostics, rows: Vec<Row>, ty: &Ty, match_range: Option<TextRange>) -> (r: CoreExpr)
+    requires rows@.len() > 0, rows@[0].columns@.len() > 0,      // branch_variable's precondition (it indexes rows[0] and unwraps a max over its columns)
 { unimplemented!() }
 // what move_variable_patterns (verified above) does to one row
 pub open spec fn moved(o: Row, n: Row) -> bool {
@@ -498,4 +499,27 @@ pub fn mk_enum_constructor(type_name: TastIdent, variant: TastIdent, index: usiz
 { unimplemented!() }
 impl VClone for TastIdent { #[verifier::external_body] fn vclone(&self) -> (r: Self) { unimplemented!() } }
 #[verifier::external_body] pub fn substitute_ty_params(ty: &Ty, subst: &HashMap<String, Ty>) -> (r: Ty) { unimplemented!() }
+
+// ---- branch_variable: the variable the next split is on ----
+// HashMap<&String, usize> used as a counter (the counts only steer a size heuristic: no specification)
+#[verifier::external_body] pub struct CountMap { _p: u64 }
+impl CountMap {
+    #[verifier::external_body] pub fn new() -> (r: Self) { unimplemented!() }
+    #[verifier::external_body] pub fn bump(&mut self, k: &String) { unimplemented!() }                     // *m.entry(k).or_insert(0) += 1
+    #[verifier::external_body] pub fn get_count(&self, k: &String) -> (r: usize) { unimplemented!() }      // m[k]
+}
+// HashMap<String, Ty>
+#[verifier::external_body] pub struct TyMap { _p: u64 }
+impl TyMap {
+    pub uninterp spec fn view(&self) -> Map<Seq<char>, Ty>;
+    #[verifier::external_body] pub fn new() -> (r: Self) ensures r@ == Map::<Seq<char>, Ty>::empty() { unimplemented!() }
+    #[verifier::external_body] pub fn insert(&mut self, k: String, v: Ty) ensures final(self)@ == old(self)@.insert(k@, v) { unimplemented!() }
+    #[verifier::external_body] pub fn contains_key(&self, k: &String) -> (r: bool) ensures r == self@.dom().contains(k@) { unimplemented!() }
+    // m[&k]: panics when the key is absent
+    #[verifier::external_body] pub fn index(&self, k: &String) -> (r: &Ty) requires self@.dom().contains(k@), ensures *r == self@[k@] { unimplemented!() }
+}
+// t is the type of some pattern that some row tests against variable v
+pub open spec fn tested_at(rows: Seq<Row>, v: Seq<char>, t: Ty) -> bool {
+    exists|i: int, j: int| 0 <= i < rows.len() && 0 <= j < rows[i].columns@.len() && (#[trigger] rows[i].columns@[j]).var@ == v && rows[i].columns@[j].pat.ty_of() == t
+}
 
